@@ -70,10 +70,21 @@ pub fn main(args: &crate::Args) {
         }
         let n = it.bytes.len();
         let stride = if quick && n > 1200 { (n / 400).max(1) } else { 1 };
+        // every cut inside the image headers and inside each frame's header + TOC (the first 160 bytes from its offset), the
+        // rest with the stride
+        let mut single: std::collections::BTreeSet<usize> = (1..n.min(400)).collect();
+        for off in wholes[ii].as_ref().unwrap().offsets.iter().flatten() {
+            single.extend((*off as usize..(*off as usize + 160).min(n)).filter(|c| *c > 0));
+            // container framing shifts codestream offsets by a few dozen bytes
+            single.extend((*off as usize + 160..(*off as usize + 260).min(n)).filter(|c| *c > 0));
+        }
         let mut c = 1;
         while c < n {
-            jobs.push((ii, vec![c]));
+            single.insert(c);
             c += stride;
+        }
+        for c in single {
+            jobs.push((ii, vec![c]));
         }
         for sz in [1usize, 2, 3, 5, 7, 64] {
             if sz == 1 && n > 3000 {
@@ -150,7 +161,7 @@ pub fn main(args: &crate::Args) {
         }
     }
     rep.traces_validated = jobs.len() as u64;
-    rep.rule = "for every stream of the jxlw corpus (bare/container, single/multi-frame, single/multi-section, TOC permuted, aux boxes) EVERY 2-chunking, every 3-chunking for streams up to 90 (quick) / 200 bytes, and fixed chunk sizes 1,2,3,5,7,64, plus cmyk_layers.jxl cut around every frame offset and at evenly spaced positions and in 4096/65537-byte chunks; unconsumed bytes re-offered, try_init after each chunk; oracle = same decoder reading the whole buffer (headers, frame count, offsets, aux data, completion flag, ICC, rendered sample bits). Distinct by (stream, cut set).".into();
+    rep.rule = "for every stream of the jxlw corpus (bare/container, single/multi-frame, single/multi-section, TOC permuted, aux boxes) EVERY 2-chunking (quick, streams over 1200 bytes: every cut in the first 400 bytes and in the 260 bytes from each frame offset, i.e. all headers and TOCs, the rest with a stride), every 3-chunking for streams up to 90 (quick) / 200 bytes, and fixed chunk sizes 1,2,3,5,7,64, plus cmyk_layers.jxl cut around every frame offset and at evenly spaced positions and in 4096/65537-byte chunks; unconsumed bytes re-offered, try_init after each chunk; oracle = same decoder reading the whole buffer (headers, frame count, offsets, aux data, completion flag, ICC, rendered sample bits). Distinct by (stream, cut set).".into();
     rep.sample(json!({"item": items[1].name, "stream_hex": hex(&items[1].bytes), "cuts": [7]}));
     rep.sample(json!({"item": items.last().unwrap().name, "bytes": items.last().unwrap().bytes.len(), "cuts": [3, 40]}));
     rep.extra.insert("corpus_streams".into(), json!(items.len()));
